@@ -61,6 +61,7 @@ type Contract struct {
 	Ghosts   []string // universally quantified ghost parameters ("name sort")
 	FreshResult bool
 	Uses    []*Clause // lemma instantiations assumed at entry (each must be a proved lemma/axiom instance)
+	Wrap    bool    // "arith wrap": + - * are encoded with exact wrap-around instead of no-wrap obligations
 	FnSplit *Clause // function-level case split (over the entry state)
 	FnSplitLo, FnSplitHi int
 	Stamps  []*Stamp  // ghost stamps recorded at every send on a channel
@@ -149,7 +150,7 @@ var keywords = map[string]bool{
 	"decreases": true, "loop": true, "mode": true, "inline": true, "assume-contract": true, "pure": true,
 	"let": true, "define": true, "declare": true, "axiom": true, "lemma": true, "owned": true, "model": true,
 	"global": true, "nosafety": true, "assert": true, "split": true, "guarded_by": true, "ghostparam": true,
-	"fresh-result": true, "use": true, "exports": true, "rawaxiom": true, "stamp": true, "defpred": true, "recfun": true,
+	"fresh-result": true, "use": true, "exports": true, "rawaxiom": true, "stamp": true, "defpred": true, "recfun": true, "arith": true,
 }
 
 // rewriteImplies turns the infix "A ==> B" (lowest precedence, right
@@ -503,6 +504,11 @@ func (lib *SpecLib) loadFile(path, pkgPath string) error {
 			}
 			curLoop = &LoopSpec{Ordinal: n}
 			cur.Loops[n] = curLoop
+		case "arith":
+			if cur == nil || strings.TrimSpace(it.rest) != "wrap" {
+				return fmt.Errorf("%s: bad arith clause (want: arith wrap)", it.where)
+			}
+			cur.Wrap = true
 		case "mode":
 			cur.Mode = it.rest
 		case "inline":
